@@ -17,6 +17,7 @@ var run *ev.Run
 func main() {
 	prop := flag.String("prop", "", "property id")
 	tier := flag.String("tier", "", "quick|thorough")
+	replay := flag.String("replay", "", "replay file: report only the violation it records")
 	flag.Parse()
 	checks := map[string]func(){"C09": c09, "C15": c15, "C08": c08, "C10": c10, "C16": c16}
 	levels := map[string]string{"C08": "model_checking", "C09": "fault_enumeration", "C10": "fault_enumeration", "C15": "model_checking", "C16": "fault_enumeration"}
@@ -29,6 +30,9 @@ func main() {
 	run.SetBudget(5 * time.Minute)
 	if run.Thorough() {
 		run.SetBudget(25 * time.Minute)
+	}
+	if *replay != "" {
+		run.SetReplay(*replay)
 	}
 	fn()
 	run.Finish()
